@@ -160,16 +160,17 @@ def c03_check(pid, tier, seed, replay=None):
         if tier == "replay":
             if os.path.exists(os.path.join(replay, "trace.ndjson")):
                 return opfamily.op_replay(pid, wd, replay, opfamily.FAMILY[pid])
-            return table_replay(pid, wd, replay, [("RedirectURI", "tbl-redirect", ("C03.",))])
+            return table_replay(pid, wd, replay, [("RedirectURI", "tbl-redirect", ("C03.",)), ("RequestObject", "tbl-reqobj", ("C03.",))])
         part = opfamily.op_part(pid, tier, seed, wd, opfamily.FAMILY[pid])
         tb = table_run(pid, "RedirectURI", "tbl-redirect", tier, seed, wd, ("C03.",), c03_sig, need=c03_need, label="redirect-URI table")
+        tb2 = table_run(pid, "RequestObject", "tbl-reqobj", tier, seed, wd, ("C03.",), c14r_sig, need=c14r_need, label="request object table (redirect rule)")
         for k in ("F:ok", "F:refused", "P:login", "P:page", "P:redirErr", "L:login", "L:json"):
             if not tb["coverage"].get(k):
                 raise Inconclusive(f"vacuous table run: no observation {k}")
-        new, known = report(pid, tb["viols"], lambda v: v["signature"],
+        new, known = report(pid, tb["viols"] + tb2["viols"], lambda v: v["signature"],
                             lambda v: dict(rule=v["rule"], module=v["module"], id=v["id"], case=v["case"], observed=v["observed"]),
                             wd, [], seed, tier, extra_save=write_cases)
-        merge_evidence(pid, tier, seed, t0, part["coverage"], [tb], part["new"] + new, part["known"] + known,
+        merge_evidence(pid, tier, seed, t0, part["coverage"], [tb, tb2], part["new"] + new, part["known"] + known,
                        part["assumptions"] + ["URI components are concretised injectively (harness/tbldrv/redirect.go); glob semantics = doublestar on the three patterns of the model"])
         return 1 if (part["new"] + new) else 0
     finally:
@@ -293,10 +294,10 @@ def c10_check(pid, tier, seed, replay=None):
         missing = [f"{f}:{r}" for f in sorted(flows) for r in ("P", "L") if not tb["coverage"].get(f"faulted:{f}:{r}")]
         if missing or tb["divergences_total"]:
             raise Inconclusive(f"fault sweep vacuous: no fault reached in {missing}; prepared flows that did not succeed fault-free: {tb['divergences'][:3]}")
-        new, known = report(pid, tb["viols"], lambda v: v["signature"],
+        new, known = report(pid, tb["viols"] + tb2["viols"], lambda v: v["signature"],
                             lambda v: dict(rule=v["rule"], module=v["module"], id=v["id"], case=v["case"], observed=v["observed"]),
                             wd, [], seed, tier, extra_save=write_cases)
-        merge_evidence(pid, tier, seed, t0, part["coverage"], [tb], part["new"] + new, part["known"] + known,
+        merge_evidence(pid, tier, seed, t0, part["coverage"], [tb, tb2], part["new"] + new, part["known"] + known,
                        part["assumptions"] + ["fault sweep: 29 prepared flows x both routers x k-th storage call (k <= 12 / 16) x {error, deadline}; the fault plan is active only while the request is served",
                                               "level: every (flow, router, k, kind) is executed, i.e. exhaustive over the fault positions of the prepared histories"])
         return 1 if (part["new"] + new) else 0
@@ -499,13 +500,18 @@ CHECKS = {
          dict(module="Assertion", sub="tbl-assertion", prefixes=("C02.",), sig=lambda o: c14a_sig(o), need=lambda o: c14a_need(o), label="JWT assertion table (key rules)",
               required=["verify:accept", "bearerP:accept", "bearerL:accept"]),
          dict(module="RequestObject", sub="tbl-reqobj", prefixes=("C02.",), sig=lambda o: c14r_sig(o), need=lambda o: c14r_need(o), label="request object table (key rules)",
-              required=["P:login:obj", "L:login:obj"])],
+              required=["P:login:obj", "L:login:obj"]),
+         dict(module="KeyWiring", sub="tbl-keywiring", prefixes=("C02.",), label="configured key set table",
+              sig=lambda o: f"wiring:{o['c']['opts']}:{o['c']['kind']}:{o['c']['by']}:{o['c']['router']}", need=lambda o: [f"{o['c']['kind']}:{o['o']['v']}"],
+              required=["at:accept", "at:reject", "hint:accept", "hint:reject"])],
         ["keys are real RSA-2048 / P-256 / Ed25519 keys; signatures are computed by the harness with crypto/* directly (not with go-jose), forged "
          "variants (foreign key, HMAC keyed with the public key, alg none, empty / garbage signature, re-encoded or replaced payload, JSON "
          "serialisations smuggling a second payload, two signatures) are built byte by byte",
          "entry points: rp.VerifyIDToken over rp.NewRemoteKeySet (fake JWKS endpoint), op.VerifyAccessToken and op.VerifyIDTokenHint over op.OpenIDKeySet, "
          "oidc.FindMatchingKey; JWT-profile assertions and request objects (per-client key storage): rules C02.assertion.key / C02.reqobj.key of C14's tables, run here as well",
-         "case domain: all token deviations in <= 2 dimensions from the fitting token of every key of every key set of <= 2 keys"]),
+         "case domain: all token deviations in <= 2 dimensions from the fitting token of every key of every key set of <= 2 keys",
+         "spec/KeyWiring.tla: which key set the provider's verifiers use under op.WithAccessTokenKeySet / op.WithIDTokenHintKeySet (userinfo and end_session on both routers)"],
+        world=True),
     "C03": c03_check,
     "C01": simple_table_check(
         [dict(module="Verifier", sub="tbl-verifier", prefixes=("C01.",), sig=c01_sig, need=c01_need, label="ID-token verifier table",
